@@ -38,7 +38,8 @@ NOTES = ("Extraction is cross-checked: for C01/C14/C15/C17/C05/C06 a sample of c
          "Assumptions allowlist, forbidden-token scan; (2) correspondence of the executable model with /repo's "
          "current working tree; (3) direct monitors that search for a concrete failing input.  See DESIGN.md.")
 
-GEOM_NOTE = ("Trusted: Coq kernel; extraction + float64 shim; harness/driver transport.  coq/model/Geom.v is hand-written, including the "
+GEOM_NOTE = ("Trusted: Coq kernel; extraction + float64 shim; harness/driver transport.  States with several occupied sites are inside the model "
+             "and the theorems (copies = sites x operations).  coq/model/Geom.v is hand-written, including the "
              "shape constructors (from_radial/polygon, from_trimer, circle) and the enclosing radius, "
              "(nalgebra's 3x3 product, Transform*Point with its normaliser branch, serde layout are MODELLED) and tied to the code "
              "on every run: its binary64 instance is compared with the implementation's placements, images, areas and scores "
